@@ -464,7 +464,7 @@ fn run(op: &Value) -> Value {
             use std::sync::{Arc, Mutex};
             use verif_service::gen::p::{Gsvc, GsvcClient, GsvcEndpoints};
             type Items = std::vec::IntoIter<Result<bytes::Bytes, conjure_error::Error>>;
-            struct H(Arc<Mutex<Vec<Value>>>, String);
+            struct H(Arc<Mutex<Vec<Value>>>, String, Option<String>);
             impl Gsvc for H {
                 fn g1(&self, auth_: BearerToken, path_arg: i32, query_arg: String, header_arg: i32) -> Result<(), conjure_error::Error> {
                     self.0.lock().unwrap().push(json!({"endpoint": "g1", "path_arg": path_arg, "query_arg": tohex(query_arg.as_bytes()), "header_arg": header_arg, "token": auth_.as_str()}));
@@ -480,7 +480,7 @@ fn run(op: &Value) -> Value {
                 }
                 fn g4(&self, set_arg: std::collections::BTreeSet<String>, opt_body: Option<String>) -> Result<Option<String>, conjure_error::Error> {
                     self.0.lock().unwrap().push(json!({"endpoint": "g4", "set_arg": set_arg.iter().map(|x| tohex(x.as_bytes())).collect::<Vec<_>>(), "opt_body": opt_body.map(|b| tohex(b.as_bytes()))}));
-                    Ok(None)
+                    Ok(self.2.clone())
                 }
             }
             struct Loop(Vec<Box<dyn Endpoint<Items, Vec<u8>> + Sync + Send>>);
@@ -526,7 +526,8 @@ fn run(op: &Value) -> Value {
             }
             let calls = Arc::new(Mutex::new(vec![]));
             let ret = String::from_utf8(hex(op["ret"].as_str().unwrap_or(""))).unwrap_or_default();
-            let svc = GsvcEndpoints::new(H(calls.clone(), ret));
+            let ret_opt = op["ret_opt"].as_str().map(|h| String::from_utf8(hex(h)).unwrap_or_default());
+            let svc = GsvcEndpoints::new(H(calls.clone(), ret, ret_opt));
             let rt = Arc::new(ConjureRuntime::new());
             let client = <GsvcClient<Loop> as ClientService<Loop>>::new(Loop(Service::endpoints(&svc, &rt)));
             let s = |k: &str| String::from_utf8(hex(op[k].as_str().unwrap_or(""))).unwrap_or_default();
@@ -540,6 +541,11 @@ fn run(op: &Value) -> Value {
                     client.g2(&tok("token"), &s("p_arg"), op["opt_arg"].as_i64().map(|v| v as i32), &lst, bar.as_deref()).map(|_| Value::Null)
                 }
                 "g3" => client.g3(&s("body_arg")).map(|v| Value::String(tohex(v.as_bytes()))),
+                "g4" => {
+                    let set: std::collections::BTreeSet<String> = op["set_arg"].as_array().map(|a| a.iter().map(|v| String::from_utf8(hex(v.as_str().unwrap())).unwrap_or_default()).collect()).unwrap_or_default();
+                    let ob = if op["opt_body"].is_null() { None } else { Some(s("opt_body")) };
+                    client.g4(&set, ob.as_deref()).map(|v| v.map(|x| Value::String(tohex(x.as_bytes()))).unwrap_or(Value::Null))
+                }
                 _ => return json!({"error": "endpoint"}),
             };
             let c = calls.lock().unwrap().clone();
